@@ -84,7 +84,16 @@ func init() {
 			all := sweepScenarios(spec.roles)
 			for i := 0; i < n; i++ {
 				role := spec.roles[r.intn(len(spec.roles))]
-				all = append(all, scn{role: role, steps: genScenario(r, role, r.intn(3) > 0)})
+				sc := scn{role: role, steps: genScenario(r, role, r.intn(3) > 0)}
+				if r.intn(3) == 0 {
+					c := defaultCfg()
+					c.IdempotentRepay = r.bool()
+					if r.bool() {
+						c.SpendableMsat = 1200000000
+					}
+					sc.cfg = &c
+				}
+				all = append(all, sc)
 			}
 			runMany(defaultCfg(), all, func(x scnResult) {
 				emit("# "+scenarioKey(x.sc.steps), "bad-op")
